@@ -7,6 +7,16 @@ use succinctly::text::utf8::{
     validate_utf8_simd, Utf8Error, Utf8ErrorKind,
 };
 
+/// Stand-in for the private error constructor `err_at` inside the validator
+/// harnesses: CBMC inlines it at each of the ~12 error sites of every unrolled
+/// loop iteration, and its line/column loops dominate the encoding. The stub
+/// records that the WHOLE input and the reported offset were passed on; the real
+/// `err_at` (offset -> line/column) is decided separately in `c13_err_at_*`.
+fn err_at_stub(input: &[u8], offset: usize, kind: Utf8ErrorKind) -> Utf8Error {
+    Utf8Error { offset, line: input.len(), column: MARK, kind }
+}
+const MARK: usize = 0xC013;
+
 fn cont(b: u8) -> bool {
     b >= 0x80 && b <= 0xBF
 }
@@ -160,8 +170,8 @@ fn check_result(b: &[u8], r: &Result<(), Utf8Error>) {
             assert!(e.kind == kind);
             // documented position: the first offending byte
             assert!(e.offset == at);
-            let (l, c) = line_col(b, e.offset);
-            assert!(e.line == l && e.column == c);
+            // the error was built from the whole input and this offset (see err_at_stub)
+            assert!(e.line == b.len() && e.column == MARK);
             if kind != Utf8ErrorKind::InvalidContinuationByte {
                 // property: the offset is the length of the longest valid prefix
                 assert!(e.offset == v);
@@ -182,6 +192,7 @@ macro_rules! scalar_len {
     ($name:ident, $n:expr) => {
         #[kani::proof]
         #[kani::unwind(10)]
+        #[kani::stub(succinctly::text::utf8::err_at, err_at_stub)]
         fn $name() {
             let b: [u8; $n] = kani::any();
             let r = validate_utf8_scalar(&b);
@@ -204,6 +215,7 @@ scalar_len!(c13_scalar_len8, 8);
 
 #[kani::proof]
 #[kani::unwind(10)]
+#[kani::stub(succinctly::text::utf8::err_at, err_at_stub)]
 fn c13_scalar_len0to3() {
     let b: [u8; 3] = kani::any();
     let n: usize = kani::any();
@@ -223,6 +235,7 @@ fn c13_scalar_len0to3() {
 /// offset is that later byte, not the length of the longest valid prefix.
 #[kani::proof]
 #[kani::unwind(10)]
+#[kani::stub(succinctly::text::utf8::err_at, err_at_stub)]
 fn c13_continuation_offset_is_valid_prefix() {
     let b: [u8; 4] = kani::any();
     let r = validate_utf8_scalar(&b);
@@ -234,36 +247,65 @@ fn c13_continuation_offset_is_valid_prefix() {
     core::mem::forget(r);
 }
 
-/// Longer inputs: concrete filler (ASCII with LF / VT, and multi-byte
+/// Longer inputs: concrete filler (ASCII with LF / VT, or multi-byte
 /// characters) with a symbolic window, so the 8-byte ASCII skipping of the
-/// scalar validator, the word loop of line/column and the 32-byte block skip of
-/// the broadword validator all run.
-macro_rules! window {
-    ($name:ident, $n:expr, $at:expr, $w:expr, $filler:expr, $engine:ident, $($stub:meta),*) => {
+/// scalar validator and the word loop of line/column run.
+macro_rules! fill_window {
+    ($b:ident, $w:ident, $n:expr, $at:expr, $wl:expr, $filler:expr) => {
+        let mut $b = [0u8; $n];
+        let f: &[u8] = $filler;
+        let mut i = 0;
+        while i < $n {
+            $b[i] = f[i % f.len()];
+            i += 1;
+        }
+        let $w: [u8; $wl] = kani::any();
+        let mut j = 0;
+        while j < $wl {
+            $b[$at + j] = $w[j];
+            j += 1;
+        }
+    };
+}
+macro_rules! scalar_window {
+    ($name:ident, $n:expr, $at:expr, $w:expr, $filler:expr) => {
         #[kani::proof]
         #[kani::unwind(10)]
-        $(#[$stub])*
+        #[kani::stub(succinctly::text::utf8::err_at, err_at_stub)]
         fn $name() {
-            let mut b = [0u8; $n];
-            let f: &[u8] = $filler;
-            let mut i = 0;
-            while i < $n {
-                b[i] = f[i % f.len()];
-                i += 1;
-            }
-            let w: [u8; $w] = kani::any();
-            let mut j = 0;
-            while j < $w {
-                b[$at + j] = w[j];
-                j += 1;
-            }
+            fill_window!(b, w, $n, $at, $w, $filler);
             let r = validate_utf8_scalar(&b);
             check_result(&b, &r);
-            let e = $engine(&b);
-            assert!(same(&r, &e));
             kani::cover!(r.is_ok() && w[0] >= 0xE0);
             kani::cover!(matches!(&r, Err(e) if e.offset > $at));
             core::mem::forget(r);
+        }
+    };
+}
+/// Accept-set harness for the fast-path engines (broadword, AVX2): they only
+/// ever answer "valid" themselves and otherwise defer to the scalar validator,
+/// so what can go wrong is accepting an ill-formed string. Result must be Ok
+/// exactly for well-formed input, and the reported error the documented one.
+macro_rules! engine_window {
+    ($name:ident, $n:expr, $at:expr, $w:expr, $filler:expr, $engine:ident, $($stub:meta),*) => {
+        #[kani::proof]
+        #[kani::unwind(10)]
+        #[kani::stub(succinctly::text::utf8::err_at, err_at_stub)]
+        $(#[$stub])*
+        fn $name() {
+            fill_window!(b, w, $n, $at, $w, $filler);
+            let v = valid_up_to(&b);
+            let e = $engine(&b);
+            match &e {
+                Ok(()) => assert!(v == $n),
+                Err(err) => {
+                    assert!(v < $n);
+                    let (kind, at) = violated_rule(&b, v);
+                    assert!(err.kind == kind && err.offset == at);
+                }
+            }
+            kani::cover!(e.is_ok() && w[0] >= 0xE0);
+            kani::cover!(e.is_err() && v > $at);
             core::mem::forget(e);
         }
     };
@@ -271,14 +313,16 @@ macro_rules! window {
 const ASCII_F: &[u8] = b"ab\ncd\x0b\nefghij\nklm";
 const MULTI_F: &[u8] = "a\u{e9}\nb\u{4e2d}c\u{1f600}d\n".as_bytes();
 
-window!(c13_scalar_win17_at9, 17, 9, 6, ASCII_F, validate_utf8_broadword,);
-window!(c13_scalar_win20_at12, 20, 12, 6, ASCII_F, validate_utf8_broadword,);
-window!(c13_broadword_win41_at30, 41, 30, 6, ASCII_F, validate_utf8_broadword,);
-window!(c13_broadword_win36_at0, 36, 0, 5, ASCII_F, validate_utf8_broadword,);
+scalar_window!(c13_scalar_win17_at9, 17, 9, 6, ASCII_F);
+scalar_window!(c13_scalar_win20_at12, 20, 12, 6, ASCII_F);
+scalar_window!(c13_scalar_win22_at10_multi, 22, 10, 4, MULTI_F);
+engine_window!(c13_broadword_win41_at30, 41, 30, 6, ASCII_F, validate_utf8_broadword,);
+engine_window!(c13_broadword_win36_at0, 36, 0, 5, ASCII_F, validate_utf8_broadword,);
+engine_window!(c13_broadword_win12_at4, 12, 4, 6, ASCII_F, validate_utf8_broadword,);
 
 macro_rules! avx2_window {
     ($name:ident, $n:expr, $at:expr, $w:expr, $filler:expr) => {
-        window!($name, $n, $at, $w, $filler, validate_utf8_simd,
+        engine_window!($name, $n, $at, $w, $filler, validate_utf8_simd,
             kani::stub(std_detect::detect::__is_feature_detected::avx2, yes),
             kani::stub(core::arch::x86_64::_mm256_max_epu8, models::mm256_max_epu8),
             kani::stub(core::arch::x86_64::_mm256_testz_si256, models::mm256_testz_si256));
@@ -293,7 +337,7 @@ avx2_window!(c13_avx2_win40_at29_multi, 40, 29, 4, MULTI_F);
 avx2_window!(c13_avx2_win8_at2, 8, 2, 6, ASCII_F);
 
 /// The public dispatcher with the AVX2 probe chosen by the solver.
-window!(c13_dispatch_win34_at29, 34, 29, 5, ASCII_F, validate_utf8,
+engine_window!(c13_dispatch_win34_at29, 34, 29, 5, ASCII_F, validate_utf8,
     kani::stub(std_detect::detect::__is_feature_detected::avx2, any_bool),
     kani::stub(core::arch::x86_64::_mm256_max_epu8, models::mm256_max_epu8),
     kani::stub(core::arch::x86_64::_mm256_testz_si256, models::mm256_testz_si256));
@@ -353,6 +397,7 @@ fn c13_decode_matches_table() {
 
 #[kani::proof]
 #[kani::unwind(10)]
+#[kani::stub(succinctly::text::utf8::err_at, err_at_stub)]
 fn c13_witness_must_fail() {
     let b: [u8; 4] = kani::any();
     let r = validate_utf8_scalar(&b);
@@ -362,3 +407,27 @@ fn c13_witness_must_fail() {
     }
     core::mem::forget(r);
 }
+
+
+/// The real error constructor: line (1 + LF count before the offset) and column
+/// for every buffer of N bytes and every offset.
+macro_rules! err_at_len {
+    ($name:ident, $n:expr) => {
+        #[kani::proof]
+        #[kani::unwind(6)]
+        fn $name() {
+            let b: [u8; $n] = kani::any();
+            let off: usize = kani::any();
+            kani::assume(off <= $n);
+            let e = succinctly::verif_hooks::utf8_err_at(&b, off, Utf8ErrorKind::InvalidLeadByte);
+            let (l, c) = line_col(&b, off);
+            assert!(e.offset == off && e.line == l && e.column == c);
+            assert!(e.kind == Utf8ErrorKind::InvalidLeadByte);
+            kani::cover!(l > 2 && c > 1);
+            kani::cover!(off == $n && l == 1);
+        }
+    };
+}
+err_at_len!(c13_err_at_len7, 7);
+err_at_len!(c13_err_at_len17, 17);
+err_at_len!(c13_err_at_len26, 26);
